@@ -333,6 +333,14 @@ DependsOn(pr, S, n) ==          \* node index n (transitively) consumes an outpu
       nxt == S \cup direct
   IN IF nxt = S THEN n \in S ELSE DependsOn(pr, nxt, n)
 
+\* the same, where names in `cut` do not carry a dependency (their value was supplied by the caller)
+RECURSIVE DependsOnCut(_, _, _, _)
+DependsOnCut(pr, cut, S, n) ==
+  LET direct == {i \in NodeIdx(pr) : \E j \in S :
+                    (Names(pr.nodes[j].outputs) \ cut) \cap (Names(pr.nodes[i].inputs) \cup Names(pr.nodes[i].wait_for)) # {}}
+      nxt == S \cup direct
+  IN IF nxt = S THEN n \in S ELSE DependsOnCut(pr, cut, nxt, n)
+
 \* node n lies on a dependency cycle (a loop re-executes it: "pause again", no fixed dependency order)
 OnCycle(pr, n) == \E j \in NodeIdx(pr) :
    /\ Names(pr.nodes[n].outputs) \cap (Names(pr.nodes[j].inputs) \cup Names(pr.nodes[j].wait_for)) # {}
@@ -352,8 +360,8 @@ C14(job) ==
          key   |-> r.pause.key = nd.outputs[1],
          value |-> Len(nd.inputs) > 0 => r.pause.value = Resolve(pr, [vals |-> r.vals], nd, nd.inputs[1]),
          dependants_idle |-> OnCycle(pr, pi) \/ \A k \in 1..Len(r.calls) : r.calls[k].frame = "" =>
-                                ~(IdxOf(pr, r.calls[k].node) # pi /\ DependsOn(pr, {pi}, IdxOf(pr, r.calls[k].node))),
-         in_order |-> OnCycle(pr, pi) \/ \A j \in NodeIdx(pr) : (IsIntr(pr.nodes[j]) /\ j # pi /\ DependsOn(pr, {j}, pi))
+                                ~(IdxOf(pr, r.calls[k].node) # pi /\ DependsOnCut(pr, PairKeys(job.provided), {pi}, IdxOf(pr, r.calls[k].node))),
+         in_order |-> OnCycle(pr, pi) \/ \A j \in NodeIdx(pr) : (IsIntr(pr.nodes[j]) /\ j # pi /\ DependsOnCut(pr, PairKeys(job.provided), {j}, pi))
                           => \A o \in DataOutputs(pr.nodes[j]) : o \in DOMAIN r.vals,
          partial |-> OnCycle(pr, pi) \/ \A k \in DOMAIN FilterOut(pr, r.vals, job.select) :
                         k \in DOMAIN auto.vals /\ (auto.vals[k] = r.vals[k] \/ k \in PairKeys(job.provided)) ]
